@@ -111,6 +111,7 @@ def _worker_init():
     # directory by many processes contend on that directory
     d = tempfile.mkdtemp(prefix='w%d_' % os.getpid(), dir=tlc.scratch())
     tempfile.tempdir = d
+    gc.freeze()      # the inherited heap (case lists) is never garbage: keep the collector from scanning it at every gc.collect()
 
 
 def pmap(func, items, procs=None, chunksize=4, min_items=64):
